@@ -468,7 +468,9 @@ class Gen:
             if c == 4:
                 return "character(len = %s, kind = %s)" % (self.small_int(), r.pick(["1", "ck"]))
             if c == 5:
-                return "character(kind = ck)"
+                return r.pick(["character(kind = ck)", "character(%s, ck)" % r.pick(["10", "2 * (n + 1)", "len(msg)"]),
+                               "character(2 * (n + 1), kind = ck)", "character(kind = ck, len = %s)" % r.pick(["5", "2 * (n + 1)", "f(3)"]),
+                               "character(kind = kind('a'), len = 3)"])
             return "character(len = 5)"
         if typ == "double precision":
             return "double{~}precision"
@@ -936,7 +938,10 @@ class Gen:
     def exec_item(self, ctx, depth):
         r = self.r
         if depth < self.o.max_depth and r.chance(35):
-            return self.construct(ctx, depth)
+            b = self.construct(ctx, depth)
+            if r.chance(10) and b.opener is not None and b.opener.label is None and "new_label" in ctx:
+                b.opener.label = ctx["new_label"]()       # a labelled construct opener, e.g. '30 nm: if (l) then'
+            return b
         st = self.simple_exec(ctx)
         if r.chance(8) and st.label is None:
             st.label = ctx["new_label"]()
@@ -1405,7 +1410,8 @@ class Gen:
                 else:
                     have_main = True
             if k == "main":
-                units.append(self.main_program(True))
+                # a main program without PROGRAM statement may sit anywhere among the units
+                units.append(self.main_program(not r.chance(35)))
             elif k == "module":
                 units.append(self.module())
             elif k == "subprogram":
